@@ -194,6 +194,23 @@ fn attribute(msg: &Value) -> Option<String> {
 
 /// Build and run all cases; returns the status of every case. Err = machinery failure.
 pub fn run_batch(cases: &[BCase], opts: &BOpts) -> Result<BTreeMap<String, BStatus>, String> {
+    // rustc's memory grows with the crate: more than ~600 case modules per crate x 16 crates in parallel exhausts the
+    // box (thorough C01/C03 were OOM-killed at 11 GB per rustc), so large batches are built in consecutive chunks
+    let chunk: usize = std::env::var("VERIF_B_CHUNK").ok().and_then(|s| s.parse().ok()).unwrap_or(9600);
+    if cases.len() <= chunk {
+        return run_batch_chunk(cases, opts);
+    }
+    let mut status = BTreeMap::new();
+    let n = (cases.len() + chunk - 1) / chunk;
+    for (k, part) in cases.chunks(chunk).enumerate() {
+        eprintln!("  batch {}: chunk {}/{} ({} cases)", opts.name, k + 1, n, part.len());
+        let o = BOpts { no_std: opts.no_std, features: opts.features, name: format!("{}-{}", opts.name, k), keep: opts.keep };
+        status.extend(run_batch_chunk(part, &o)?);
+    }
+    Ok(status)
+}
+
+fn run_batch_chunk(cases: &[BCase], opts: &BOpts) -> Result<BTreeMap<String, BStatus>, String> {
     let mut status: BTreeMap<String, BStatus> = cases.iter().map(|c| (c.id.clone(), BStatus::NotRun)).collect();
     if cases.is_empty() {
         return Ok(status);
